@@ -23,6 +23,9 @@ func runC18(c *an.Ctx) {
 	r18a(c)
 	r18b(c)
 	r18cd(c)
+	// shared with C03: reconciliation answers reach the ownership test only if the scheduler forwards every status
+	// update; an update filtered out before (as a duplicate, say) leaves a task of the previous life alive
+	c.As(map[string]string{"R03g": "R18e"}, func() { r03g(c) })
 }
 
 func r18a(c *an.Ctx) {
